@@ -100,6 +100,8 @@ def run_history(sc: dict) -> dict:
             observe('pre-dispatch')
             st['ndisp'] += 1
             had_path = bus.name in e.event_path
+            had_hist = e.event_id in bus.event_history  # the same object may have been accepted by an earlier call
+            had_results = bool(e.event_results)
             try:
                 got = bus.dispatch(e)
             except Exception as ex:  # noqa
@@ -109,13 +111,12 @@ def run_history(sc: dict) -> dict:
                 info['rejected'] += 1
                 if by is not None:
                     info['rejected-in-handler'] += 1
-                if e.event_id in bus.event_history:
+                if e.event_id in bus.event_history and not had_hist:
                     viol.append(('C14.b', f'dispatch of event {e.tag} raised {type(ex).__name__} but the event is in event_history'))
                 if by is not None and any(c.event_id == e.event_id for c in by.event_children):
                     viol.append(('C14.c', f'dispatch of event {e.tag} inside the handler of event {by.tag} raised {type(ex).__name__} but it is recorded as a child of that event'))
-                for r in e.event_results.values():
+                if e.event_results and not had_results:
                     viol.append(('C14.b', f'rejected event {e.tag} has a handler result'))
-                    break
                 observe('post-reject')
                 log.append(f't={T():g} dispatch {e.tag} by {by.tag if by is not None else "actor"} REJECTED {type(ex).__name__}')
                 return None
